@@ -35,6 +35,7 @@ Profile GetProfile(const std::string& name, bool thorough) {
     p.pm_cmd_fail = 40; p.pm_interrupt = 60; p.pm_crash = 40; p.pm_editor = 80;
     p.w_manifest_edit = 1; p.pm_tty = 150;
     p.subset_then_touch = true;
+    p.generator_restats_log = true;
   } else if (name == "C05") {
     p.pm_cmd_fail = 220; p.pm_cmd_signal = 60; p.w_edit = 4; p.pm_io_error = 0;
     p.gen.features &= ~F_REGEN;
@@ -50,6 +51,8 @@ Profile GetProfile(const std::string& name, bool thorough) {
   } else if (name == "C20") {
     p.pm_cmd_fail = 120; p.pm_tty = 400; p.hostile_output = true; p.gen.features |= F_CONSOLE;
     p.pm_interrupt = 120;   // output held back for a console command must survive an interrupted build
+    p.invalid_dyndep = true; p.gen.features |= F_DYNDEP;   // ... and a build stopped by a dyndep file that does not load
+    p.pm_io_error = 100;                                   // ... or by a failing log write / stat of an output
   } else if (name == "C10") {
     p.twin_deps = true; p.check_convergence = false;
     p.gen.features |= F_DEPFILE | F_DEPSGCC | F_DEPSMSVC | F_GEN_HEADERS | F_RESTAT;
@@ -231,6 +234,21 @@ struct Driver {
     // a record appended behind a crash-torn log tail is merged with it and may
     // look out of date once more (C08 allows exactly that)
     if (r.log_torn_tail_before) return;
+    // a generator command that ended with `ninja -t restat` put the outputs' own mtimes into
+    // the log mid-build: what is up to date afterwards is the tool's business (a restat
+    // command that left its output alone looks out of date again).  What must still hold:
+    // the log ninja goes on writing is the replaced one - every command that finished has
+    // a record in it.
+    if (r.log_restated) {
+      for (const SpawnRec& x : r.spawns) {
+        if (!x.reap_seq || x.reap_status != 0) continue;
+        for (auto& o : x.outs)
+          if (!r.log_after.last.count(o))
+            w.Report("C02", "record_lost", "statement " + std::to_string(x.stmt) + " finished successfully but the build log has no record for '" + o + "' after the build (a generator command had replaced the log with `ninja -t restat`)");
+      }
+      rr.stats.n["convergence_skipped_log_restated"]++;
+      return;
+    }
     // documented always-dirty case: an input-less phony whose file is missing
     std::vector<std::string> targets = w.EffectiveTargets(r.plan);
     std::set<int> cl = w.Closure(targets, true);
@@ -1629,6 +1647,9 @@ RunResult RunOne(Tape& tape, const Profile& prof) {
   tape.Reset();
   if (!prof.twin_deps && !prof.twin_dyndep) {
     Driver d(tape, prof, rr);
+    // some profiles let producers write damaged dyndep files in a third of their runs:
+    // a load error is the one way a finished command makes the whole build stop at once
+    if (prof.invalid_dyndep && tape.Choice(ST_SCEN + 50, 3) == 0) d.invalid_dyndep_run = true;
     d.Run();
     return rr;
   }
